@@ -312,6 +312,16 @@ fn fairness(rep: &mut Report) {
         ("loop{conde{x0=1, x0=2}}", |v| lp(vec![cde(vec![vec![eqk(v, 0, 1)], vec![eqk(v, 0, 2)]])]), 12, vec![("1", 3), ("2", 3)]),
         ("conde{loop{x0=1}, loop{x0=2}, forever()}", |v| cde(vec![vec![lp(vec![eqk(v, 0, 1)])], vec![lp(vec![eqk(v, 0, 2)])], vec![forever()]]), 16, vec![("1", 3), ("2", 3)]),
     ];
+    // loop { g1, g2 }: the body is the CONJUNCTION of its goals (C06: every answer produced is an answer of the program)
+    {
+        let name = "loop{conde{x0=1,x0=2}, x0!=1}";
+        rep.case("loop-prefix", format!("loop {}", name));
+        let g: fn(&[T]) -> Goal<U, E> = |v| { let refs_a = cde(vec![vec![eqk(v, 0, 1)], vec![eqk(v, 0, 2)]]); let ne: Goal<U, E> = Diseq::new::<Goal<U, E>>(v[0].clone(), LTerm::from(1isize)).cast_into(); let a = [refs_a]; let b = [ne]; let refs: Vec<&[Goal<U, E>]> = vec![&a[..], &b[..]]; anyo(OperatorParam::new(&refs)) };
+        match guard_timeout(move || prefix(g, 6), 10) {
+            Ok(got) => if got.len() != 6 || got.iter().any(|a| a[0] != "2") { rep.fail("loop-prefix", name.to_string(), "six answers, all with x0=2".into(), format!("{:?}", got.iter().map(|a| a[0].clone()).collect::<Vec<_>>()), "invented"); },
+            Err(e) => rep.fail("loop-prefix", name.to_string(), "six answers".into(), e, "panic"),
+        }
+    }
     for (name, g, n, wants) in scenarios {
         rep.case("fairness", format!("fair {}", name));
         match guard_timeout(move || prefix(g, n), 10) {
@@ -418,6 +428,15 @@ pub fn search(tier: &str, seed: u64, _only: Option<&str>) {
     check(&mut rep, &G::Conda(vec![vec![choice(0), G::Eq(1, 1), G::EqV(1, 2)], vec![G::Eq(0, 2)]]));
     check(&mut rep, &G::Condu(vec![vec![G::Eq(0, 1), G::Onceo(vec![choice(1)]), G::Eq(1, 2)]]));
     check(&mut rep, &G::Condu(vec![vec![G::Eq(0, 1), choice(1), G::Eq(2, 2)], vec![G::Eq(0, 3)]]));
+    // the rest goals of a committed clause run in the order written: a soft cut in the rest sees what came before it
+    let sc = G::Conda(vec![vec![G::Eq(1, 2), G::Eq(2, 1)], vec![G::Eq(2, 2)]]);
+    check(&mut rep, &G::Condu(vec![vec![G::Eq(0, 1), sc.clone(), G::Eq(1, 3)]]));
+    check(&mut rep, &G::Condu(vec![vec![G::Eq(0, 1), G::Eq(1, 3), sc.clone()]]));
+    check(&mut rep, &G::Conda(vec![vec![G::Eq(0, 1), sc.clone(), G::Eq(1, 3)], vec![G::Eq(0, 2)]]));
+    check(&mut rep, &G::Conda(vec![vec![G::Eq(0, 1), G::Eq(1, 3), sc.clone()], vec![G::Eq(0, 2)]]));
+    check(&mut rep, &G::Onceo(vec![G::Eq(0, 1), sc.clone(), G::Eq(1, 3)]));
+    check(&mut rep, &G::OnceoFlat(vec![G::Eq(0, 1), sc.clone(), G::Eq(1, 3)]));
+    check(&mut rep, &G::Conj(0, vec![G::Eq(0, 1), sc.clone(), G::Eq(1, 3)]));
     check(&mut rep, &G::Onceo(vec![G::Eq(0, 1), choice(1)]));
     check(&mut rep, &G::OnceoFlat(vec![G::Eq(0, 1), choice(1)]));
     check(&mut rep, &G::Onceo(vec![choice(0), G::Eq(0, 2)]));
